@@ -205,11 +205,48 @@ static void do_meta(const J &in, FILE *out) {
     fprintf(out, "%s\n", s.c_str());
 }
 
+// ---------------------------------------------------------------- C18 collapsePath
+static void do_collapse(const J &in, FILE *out) {
+    std::string path = in["path"].text();
+    JW w; w.obj().kstr("k", "collapse").key("comps").arr(); for (auto &c : in["comps"].a) w.bytes(c.bytes()); w.end_arr().kbytes("path", (const uint8_t *)path.data(), path.size());
+    int sig = vg_run(5, [&] {
+        FlushBuf b(path.size() + 1); memcpy(b.p, path.c_str(), path.size() + 1);
+        char *r = Ports::collapsePath((char *)b.p);
+        bool inside = r >= (char *)b.p && r <= (char *)b.p + path.size();
+        w.kbool("inside", inside);
+        if (inside) w.kbytes("result", (const uint8_t *)r, strnlen(r, path.size() + 1 - (r - (char *)b.p)));
+        else w.kbytes("result", (const uint8_t *)"", 0);
+    });
+    w.knum("sig", sig).knum("asan", vg_asan_hits).kstr("asan_what", vg_asan_first).end_obj();
+    fprintf(out, "%s\n", w.s.c_str());
+}
+// ---------------------------------------------------------------- C18 child search
+static void do_search(const std::string &line, const J &in, FILE *out) {
+    const J &tb = in["table"]; std::vector<int> none;
+    port_ids.clear(); objs.clear();
+    std::unique_ptr<Node> root = build(tb, none);
+    JW w; w.obj().kstr("k", "search").key("table").raw("@T@").key("queries").arr();
+    int sig = vg_run(60, [&] {
+        for (auto &q : in["queries"].a) {
+            std::string loc = q["loc"].text(), needle = q["needle"].text(); int opt = (int)q["opt"].num(); bool wq = q["with_query"].b;
+            char m[512]; size_t mn = rtosc_message(m, sizeof m, "/path-search", "ss", loc.c_str(), needle.c_str());
+            FlushBuf mb(mn); memcpy(mb.p, m, mn);
+            size_t cap = 8192; FlushBuf rb(cap); memset(rb.p, 0xA5, cap); int h0 = vg_asan_hits;
+            size_t n = path_search(root->ports, (const char *)mb.p, 64, (char *)rb.p, cap, (path_search_opts)opt, wq);
+            w.obj().kbytes("loc", (const uint8_t *)loc.data(), loc.size()).kbytes("needle", (const uint8_t *)needle.data(), needle.size()).knum("opt", opt).kbool("with_query", wq)
+             .knum("ret", (long long)n).kbytes("reply", rb.p, n <= cap ? n : 0).kbool("valid", n && n <= cap && rtosc_valid_message_p((const char *)rb.p, n)).knum("asan", vg_asan_hits - h0).end_obj();
+        } });
+    w.end_arr().knum("sig", sig).kstr("asan_what", vg_asan_first).end_obj();
+    std::string t = line.substr(line.find("\"table\":") + 8); size_t cut = t.rfind(",\"queries\""); t = t.substr(0, cut);
+    std::string s = w.s; s.replace(s.find("@T@"), 3, t);
+    fprintf(out, "%s\n", s.c_str());
+}
+
 int main(int argc, char **argv) {
     vg_init();
     if (argc < 4) return 2;
     std::string mode = argv[1]; FILE *f = fopen(argv[2], "r"); FILE *out = fopen(argv[3], "w"); if (!f || !out) return 2;
     std::string line;
-    while (read_line(f, line)) { if (line.empty()) continue; J j = jparse(line); if (mode == "dispatch") do_dispatch(line, j, out); else if (mode == "walk") do_walk(line, j, out); else if (mode == "meta") do_meta(j, out); }
+    while (read_line(f, line)) { if (line.empty()) continue; J j = jparse(line); if (mode == "dispatch") do_dispatch(line, j, out); else if (mode == "walk") do_walk(line, j, out); else if (mode == "meta") do_meta(j, out); else if (mode == "collapse") do_collapse(j, out); else if (mode == "search") do_search(line, j, out); }
     fclose(out); return 0;
 }
